@@ -394,6 +394,11 @@ def make_shims(sched, tracer):
 
     class VExecutor:
         def __init__(self, max_workers=None):
+            # (as the real ThreadPoolExecutor)
+            if max_workers is None:
+                max_workers = 4
+            if max_workers <= 0:
+                raise ValueError('max_workers must be greater than 0')
             self.max_workers = max_workers
             self.work = collections.deque()
             self.threads = []
